@@ -25,7 +25,7 @@ OBL = {
                                            "Qsx.Props.C03.ratio_pII_never_failed", "Qsx.Props.C03.ratio_pII_unbounded_ray",
                                            "Qsx.Props.C03.ratio_pII_flip_feasible", "Qsx.Props.C03.ratio_pII_step_feasible",
                                            "Qsx.Props.C03.ratio_dII_never_failed", "Qsx.Props.C03.ratio_dII_unbounded_ray",
-                                           "Qsx.Props.C03.ratio_dII_step_feasible"]],
+                                           "Qsx.Props.C03.ratio_dII_step_feasible", "Qsx.Props.C03.ratio_pII_largest_pivot"]],
     "C04": [("Qsx.Props.C04", t) for t in ["Qsx.Props.C04.certified_answers_agree", "Qsx.Props.C04.certified_status_agree",
                                            "Qsx.Props.C04.repeated_solve_cached"]],
 }
